@@ -497,13 +497,17 @@ class _ProfileFilePersistence(_FilePersistence):
     def _persists_data_point_in_open_file(self, data_point):
         run_id_id = self._ensure_run_id_is_persisted(data_point.run_id)
         assert isinstance(data_point, ProfileData)
-        line = self._SEP.join(data_point.as_str_list(run_id_id))
+        columns = data_point.as_str_list(run_id_id)
+        # the identifying columns may hold tabs and line ends, as in measurement lines;
+        # the last column is JSON, which holds neither
+        line = self._SEP.join([_escape_column(c) for c in columns[:-1]] + [columns[-1]])
         assert "\n" not in line, "The newline character is now allowed in a data line"
         self._file.write(line + "\n")
 
     def _parse_data_line(
             self, data_point, line, line_number, runs, filtered_data_file, previous_run_id):
         str_list = line.rstrip('\n').split(self._SEP)
+        str_list = [_unescape_column(c) for c in str_list[:-1]] + [str_list[-1]]
 
         data_point = ProfileData.from_str_list(
             self._id_to_run_id, str_list, line_number, self._data_filename)
